@@ -246,21 +246,21 @@ example : (match exCyc.subsetSuccE [7, 3, 9] with | .ok r => r | .error _ => [])
 /-- The failure tracking is not vacuous: a target outside `states` (validation rejects it with
 `InvalidStateError`) makes `lambda_closures[end_state]` fail with `KeyError` in `from_nfa` and in
 `eliminate_lambda` (through the lambda enclosure of `0`), while the total models go on. -/
-def exBadTarget : AV.NFA Nat Nat :=
+def exBadTargetH : AV.NFA Nat Nat :=
   { states := [0, 1], syms := [0], trans := [(0, [(none, [1])]), (1, [(some 0, [5])])],
     init := 0, finals := [1] }
 
-example : exBadTarget.validate = .error (.lib .invalidStateError) ∧
-    (match exBadTarget.toDFAE with | .error (.py .keyError) => true | _ => false) = true ∧
-    (match exBadTarget.eliminateLambdaE with | .error (.py .keyError) => true | _ => false) = true ∧
-    exBadTarget.toDFA.states.length = 2 := by decide
+example : exBadTargetH.validate = .error (.lib .invalidStateError) ∧
+    (match exBadTargetH.toDFAE with | .error (.py .keyError) => true | _ => false) = true ∧
+    (match exBadTargetH.eliminateLambdaE with | .error (.py .keyError) => true | _ => false) = true ∧
+    exBadTargetH.toDFA.states.length = 2 := by decide
 
 /-- An initial state outside `states`: `_get_lambda_closures()[initial_state]` fails. -/
-def exBadInit : AV.NFA Nat Nat :=
+def exBadInitH : AV.NFA Nat Nat :=
   { states := [0], syms := [0], trans := [(0, [(some 0, [0])])], init := 4, finals := [] }
 
-example : exBadInit.validate = .error (.lib .invalidStateError) ∧
-    (match exBadInit.toDFAE with | .error (.py .keyError) => true | _ => false) = true := by decide
+example : exBadInitH.validate = .error (.lib .invalidStateError) ∧
+    (match exBadInitH.toDFAE with | .error (.py .keyError) => true | _ => false) = true := by decide
 
 /-- `transitions[cur_state_name]` is a real obligation of the loop: started from a state whose
 row was never created, the first edge fails. -/
